@@ -58,7 +58,7 @@ def gen_cases(rng, tier):
     c, d3 = G.grp_cases(rng.fork("impl"), tier, mid=204)
     d1.update(d2)
     d1.update(d3)
-    return a + b + c, d1
+    return b + c + a, d1      # (the structural cases first: their reports name the definition and the generated signature)
 
 
 def _names(l):
